@@ -58,6 +58,10 @@ func genCase(t *rapid.T) Case {
 	c := Case{Seed: rapid.Uint64().Draw(t, "seed")}
 	c.Scenario = rapid.SampledFrom([]string{"plain", "plain", "retry", "vn", "resume", "0rtt", "0rtt-reject", "longchain"}).Draw(t, "scenario")
 	c.Client = "plain"
+	if c.Scenario == "vn" {
+		// the UTransport client kinds have their own dial / re-dial path (u_transport.go)
+		c.Client = rapid.SampledFrom([]string{"plain", "unil", "unil", "spec:chrome115", "spec:firefoxA"}).Draw(t, "vnclient")
+	}
 	if (c.Scenario == "plain" || c.Scenario == "retry" || c.Scenario == "longchain") && rapid.IntRange(0, 2).Draw(t, "spec") == 0 {
 		c.Client = "spec:" + rapid.SampledFrom([]string{"chrome115", "chrome146", "firefoxA"}).Draw(t, "base")
 	}
@@ -295,8 +299,12 @@ func runCase(c Case, u *vf.Unit) *vf.Verdict {
 	}
 	sconf := qconf()
 	sconf.Allow0RTT = c.Scenario == "0rtt" || c.Scenario == "0rtt-reject"
+	vnFinal := quic.Version1
 	if c.Scenario == "vn" {
-		sconf.Versions = []quic.Version{quic.Version1}
+		if strings.HasPrefix(c.Client, "spec:") {
+			vnFinal = quic.Version2 // parrots start on v1 like the browsers they imitate
+		}
+		sconf.Versions = []quic.Version{vnFinal}
 	}
 	stls := sim.ServerTLS(c.Scenario == "longchain", w.ServerKeys)
 	ln, err := st.ListenEarly(stls, sconf)
@@ -319,6 +327,9 @@ func runCase(c Case, u *vf.Unit) *vf.Verdict {
 	cconf := qconf()
 	if c.Scenario == "vn" {
 		cconf.Versions = []quic.Version{quic.Version2, quic.Version1}
+		if vnFinal == quic.Version2 {
+			cconf.Versions = []quic.Version{quic.Version1, quic.Version2}
+		}
 	}
 	dial := func(ctx context.Context, early bool) (*quic.Conn, error) {
 		if strings.HasPrefix(c.Client, "spec:") {
@@ -327,6 +338,9 @@ func runCase(c Case, u *vf.Unit) *vf.Verdict {
 				return nil, e
 			}
 			return (&quic.UTransport{Transport: ct, QUICSpec: spec}).Dial(ctx, sim.ServerAddr, ctls, cconf)
+		}
+		if c.Client == "unil" {
+			return (&quic.UTransport{Transport: ct}).Dial(ctx, sim.ServerAddr, ctls, cconf)
 		}
 		if early {
 			return ct.DialEarly(ctx, sim.ServerAddr, ctls, cconf)
@@ -473,22 +487,34 @@ func runCase(c Case, u *vf.Unit) *vf.Verdict {
 			}
 		}
 	}
+	// the first intact genuine Version Negotiation packet the client received: from then on every other Version
+	// Negotiation packet must be discarded (RFC 9000 6.2: "... if it has received and successfully processed any
+	// other packet, including an earlier Version Negotiation packet")
+	genuineVN := time.Duration(1 << 62)
+	for _, r := range log {
+		if r.Dir == "s2c" && !r.Forged && !r.Mutated && len(r.Dlv) > 0 && hasClass(r, "vn") && r.Dlv[0] < genuineVN {
+			genuineVN = r.Dlv[0]
+		}
+	}
 	earlyKill, iniForgery, lossy := false, false, false
 	for _, r := range log {
 		if !r.Forged {
 			continue
 		}
 		early := len(r.Dlv) == 0 || r.Dlv[0] <= firstGenuineS2C+time.Millisecond
-		isVN := false
-		for _, cl := range r.Class {
-			isVN = isVN || cl == "vn" // includes (bit-flipped) replays of a genuine Version Negotiation packet
-		}
-		if isVN && c.Scenario == "vn" {
-			// the genuine VN and the forgery race each other; whichever the client sees first decides
-			earlyKill = true
+		// includes (bit-flipped) replays of a genuine Version Negotiation packet; one that lists the version the client
+		// is using ("vn-same") is never followed: before the genuine one by RFC 9000 6.2, afterwards like any other
+		if hasClass(r, "vn") && r.Notes != "vn-same" {
+			if c.Scenario == "vn" {
+				// the genuine VN and the forgery race each other; whichever the client sees first decides
+				early = len(r.Dlv) == 0 || r.Dlv[0] <= genuineVN+time.Millisecond
+			}
+			if early {
+				earlyKill = true
+			}
 		}
 		switch r.Notes {
-		case "vn", "retry-valid":
+		case "retry-valid":
 			if early {
 				earlyKill = true
 			}
@@ -568,7 +594,7 @@ func runCase(c Case, u *vf.Unit) *vf.Verdict {
 			if cs.Used0RTT != ss.Used0RTT {
 				return bad("C13/agree/0rtt", "client Used0RTT=%v, server Used0RTT=%v", cs.Used0RTT, ss.Used0RTT)
 			}
-			if c.Scenario == "vn" && cs.Version != quic.Version1 {
+			if c.Scenario == "vn" && cs.Version != vnFinal {
 				return bad("C13/agree/version", "version negotiation scenario ended on %v", cs.Version)
 			}
 			if v := checkCIDAuth(w, log, genuineRetry, retrySCID); v != nil {
@@ -665,6 +691,15 @@ func runCase(c Case, u *vf.Unit) *vf.Verdict {
 		}
 	}
 	return nil
+}
+
+func hasClass(r *sim.Record, cl string) bool {
+	for _, c := range r.Class {
+		if c == cl {
+			return true
+		}
+	}
+	return false
 }
 
 // checkCIDAuth: the transport parameters authenticate the connection IDs in use (RFC 9000 7.3), read off the wire.
@@ -767,7 +802,7 @@ func TestHandshakeExhaustive(t *testing.T) {
 			}
 		}
 	}
-	scen := []Case{{Scenario: "plain", Client: "plain"}, {Scenario: "retry", Client: "plain"}, {Scenario: "vn", Client: "plain"}, {Scenario: "resume", Client: "plain"},
+	scen := []Case{{Scenario: "plain", Client: "plain"}, {Scenario: "retry", Client: "plain"}, {Scenario: "vn", Client: "plain"}, {Scenario: "vn", Client: "unil"}, {Scenario: "resume", Client: "plain"},
 		{Scenario: "0rtt", Client: "plain"}, {Scenario: "0rtt-reject", Client: "plain"}, {Scenario: "longchain", Client: "plain"}, {Scenario: "plain", Client: "spec:chrome115"}, {Scenario: "retry", Client: "spec:firefoxA"}}
 	for _, base := range scen {
 		base.RTTms = 20
@@ -786,5 +821,5 @@ func TestHandshakeExhaustive(t *testing.T) {
 			}
 		}
 	}
-	u.Extra("exhaustive", "9 scenario/client combinations x every 1-fault schedule (thorough: every 2-fault schedule) among the first 10 datagrams per direction x {drop,dup,delay,flip,trunc}")
+	u.Extra("exhaustive", "10 scenario/client combinations x every 1-fault schedule (thorough: every 2-fault schedule) among the first 10 datagrams per direction x {drop,dup,delay,flip,trunc}")
 }
